@@ -1,37 +1,56 @@
 package runner
 
 // O-CHECK (C05): over every published wait-for graph on n nodes in which every cycle passes through
-// the checking thread's root, check(dep) reports a cyclic dependency iff the root is reachable from
-// dep, and nil otherwise. Adjacency bits are solver variables (the exploration is split over the
-// root's row for n = 4). Graphs with a cycle that avoids the root are assumed away: while such a
-// cycle is transiently published its members are about to detect it themselves, and the walk's
-// termination then depends on their progress (DESIGN.md, observation O1).
+// the requesting target (the root), a dependency request of the root reports a cyclic dependency iff
+// the root is reachable from one of the requested dependencies, and otherwise blocks until they
+// finish and reports none. The graph walk (engine.check / checkDeps) is exercised through
+// EvaluateTargets, so the obligation does not depend on the walk's internal signatures. Adjacency
+// bits are solver variables (the exploration is split over the root's row for n = 4). Graphs with a
+// cycle that avoids the root are assumed away: while such a cycle is transiently published its
+// members are about to detect it themselves, and the walk's termination then depends on their
+// progress (DESIGN.md, observation O1).
 
 func VHarnessCheck() {
+	vMode = "check"
 	n := vParam("nodes")
+	r := &runner{gate: newGate(2)}
+	vHolds = 1
 	ts := make([]*target, n)
 	for i := range ts {
-		ts[i] = newTarget(string(rune('a' + i)))
+		ts[i] = vMkTarget(r, string(rune('a'+i)))
+		ts[i].status = statusRunning
 	}
+	vRoot = ts[0]
 	adj := make([][]bool, n)
+	var request []string
 	for i := 0; i < n; i++ {
 		adj[i] = make([]bool, n)
 		var deps []*target
-		published := vNondetBool("published")
 		for j := 0; j < n; j++ {
 			e := vNondetBool("edge")
 			if i == 0 && vParam("row0") >= 0 {
 				vAssume(e == (vParam("row0")>>uint(j)&1 == 1))
 			}
 			if e {
-				adj[i][j] = published
+				adj[i][j] = true
 				deps = append(deps, ts[j])
+				if i == 0 {
+					request = append(request, ts[j].label)
+				}
 			}
 		}
-		if published {
+		if i > 0 && vNondetBool("published") {
 			d := deps
 			ts[i].waiting.Store(&d)
+		} else if i > 0 {
+			for j := range adj[i] {
+				adj[i][j] = false // not published: no wait edges
+			}
 		}
+	}
+	if len(request) == 0 {
+		vReach("nothing-requested")
+		return
 	}
 	reach := make([][]bool, n)
 	r2 := make([][]bool, n)
@@ -62,25 +81,25 @@ func VHarnessCheck() {
 			return
 		}
 	}
-	e := &engine{root: ts[0], runner: &runner{gate: newGate(1)}}
-	for d := 0; d < n; d++ {
-		err := e.check(ts[d])
-		want := d == 0 || reach[d][0]
+	vDeps = ts[1:]
+	for _, d := range vDeps {
+		vFinal[d] = statusSucceeded
+	}
+	e := &engine{root: ts[0], runner: r}
+	res := e.EvaluateTargets(request...)
+	want := reach[0][0] // the root reaches itself through what it requests
+	for i := range res {
+		_, isCyc := res[i].Error.(CyclicDependencyError)
 		if want {
-			_, isCyc := err.(CyclicDependencyError)
-			vAssert(err != nil && isCyc, "O-CHECK: a cycle through this target is not reported")
-			vReach("cycle")
+			vAssert(isCyc, "O-CHECK: a cycle through this target is not reported")
 		} else {
-			vAssert(err == nil, "O-CHECK: cyclic dependency reported although this target is not reachable")
-			vReach("no-cycle")
+			vAssert(!isCyc, "O-CHECK: cyclic dependency reported although this target is not on a cycle")
 		}
 	}
-	// checkDeps over a list reports a cycle iff some member does
-	var all []*target
-	anyCyc := false
-	for d := 1; d < n; d++ {
-		all = append(all, ts[d])
-		anyCyc = anyCyc || reach[d][0]
+	if want {
+		vAssert(vIndex("block") < 0, "O-CHECK: blocked although a cycle through this target is published")
+		vReach("cycle")
+	} else {
+		vReach("no-cycle")
 	}
-	vAssert((e.checkDeps(all) != nil) == anyCyc, "O-CHECK: checkDeps disagrees with its members")
 }
